@@ -241,6 +241,7 @@ func genC03(ctx *Ctx) {
 	}
 	for _, s := range []string{"1/0", "1%0", "a[5]", "'abc'[5]", "Array(1,2)[-1]", "1 << -1", "1 >> 64", "1 NOT IN a", "\"\"", "1 2", "1 )", "*", "NOT NOT a", "Max(a,1)", "Acos(1)", "Min()", "Choose(-1,1,2)", "Choose(9,1,2)", "If(a,1)", "2^3", "2.0^3", "a IS NULL IS NOT NULL", "'é'", "'日本'[1]", "((((((((1))))))))", "f(", "a[", "'x", "/* x", "1e", "1e+", ".", "-", "!", "a LIKE b", "Sum(1,'a',TRUE)", "'héé'[3]", "'héé'[4]", "'日本'[2]", "'日本'[5]", "'日本'[6]", "'😀'[1]", "'😀'[3]", "'😀'[4]", "9223372036854775807 + 1", "-9223372036854775807 - 2", "1.5 % 2", "'a' * 2", "TRUE + 1", "Array(1,2) + 1", "Date(2020,1,1) - Date(2019,1,1)", "TimeSpan(1) + TimeSpan(1,2,3)", "DayOfWeek(Date(2020,1,5))",
 		"Array(1,)", "Sum(1,)", "Sum(1, 2,)", "2 + Max(1,)", "Sum(,)", "Sum(,1)", "Min(1,,2)", "Array()", "Array(,)", "Sum(1,) + Sum(2,)", "a[1,]", "If(1,2,3,)", "Choose(1, 2,)", "Abs(1,)",
+		"a IS", "a IS NOT", "x1 + 1 NOT", "a NOT", "(a) IS NOT", "a IS NOT NULL IS", "NOT", "IS", "a IN", "a NOT IN", "a NOT LIKE", "a IS NULL NOT", "f(a IS", "a[1 IS NOT",
 		"FALSE AND a", "TRUE OR a", "FALSE AND Array(1)", "a AND FALSE", "Choose(1-3,1,2)", "Choose(9223372036854775807,1,2)"} {
 		emitExpr(s, "special", true)
 	}
